@@ -1366,6 +1366,6 @@ func TestRtspCommand(t *testing.T) {
 	resetNotes()
 	pbt.Run(t, pbt.Spec[RtspCase]{
 		ID: "C13", Name: "rtsp-command", Gen: genRtspCase, Run: runRtsp, Classify: classifyRtsp, Isolate: true,
-		Quick: 150, Thorough: 2000,
+		Quick: 200, Thorough: 2000,
 	})
 }
